@@ -9,7 +9,7 @@ CLAIMED = {
  "C03": (CONT, "Acceptor checks every frame's content against the model (rows carry the bar's snapshot at render time); monitor: last frame shows every remaining bar in its final state, dropped bars absent, no output after Wait. Theorems on the final-state content are in Props/C03.v; known finding D9 (cancelled bar drawn running).", "7 (C03), 8 (D9)"),
  "C04": (CONT, "Line-level terminal replay of every frame (cursor-up = live rows, text above rows, nothing before the delay ends) + acceptor's exact frame prediction; the terminal path (pty) is the thorough tier's sweep.", "7 (C04), 8 (D6)"),
  "C05": (CONT, "Theorems Props/C05.v: a bar is in exactly one place or gone for good (NoDup over heap/queue/pushes/popped/parked/retired) for every accepted trace; a frame's bars are the heap at that cycle's iteration; requests are received in the order sent. Monitor: no bar twice, none vanishing and returning, added-before-cycle bars present.", "7 (C05), 8 (D5)"),
- "C06": (CONT, "Theorems Props/C06.v: pops of a clean cycle are in non-increasing priority, flush order = pop order, immediate/lazy fix semantics, every iteration restores order. Monitor on HM_POP priorities and row order.", "7 (C06)"),
+ "C06": (CONT, "Theorems Props/C06.v: pops of a clean cycle are in non-increasing priority, flush order = pop order, immediate/lazy fix semantics, every iteration restores order; the priority queue itself (priority_queue.go under container/heap, PQueue.v) keeps heap order, multiset and index fields in every run, Pop returns a maximum, Fix restores order, tied to the code by the differential pq family (exact slice order incl. ties). Monitor on HM_POP priorities, row order and priority changes reaching the heap.", "7 (C06)"),
  "C07": ("Coq theorems (termination of the fill loops for every component width incl. zero; exact width of the bar body; Format reports its true width for every wrapper tree; truncation; row width <= terminal width for every decorator list) + differential correspondence of the extracted model on direct Fill calls and whole rows + width/UTF-8/termination monitor",
          "Theorems in coq/Props/C07.v over Filler.v/Decor.v for all widths, styles and int64 progress values; tie: 2500+ Fill calls and rows per quick run classified rune by rune and measured with go-runewidth.",
          "7 (C07), 8 (D2)"),
